@@ -50,8 +50,13 @@ def _mk(orthogonal, bpsign, free_I):
         Bxy = env.real("Bxy", pos=True)
         Bp = bpsign * bpabs
         Ival = env.real("I") if free_I else 0.0
+        beta = None
         if not orthogonal:
-            tanb = env.real("tanBeta", lo=-4, hi=4)
+            # beta comes from the REAL calcBeta on a grid stencil with a symbolic radial displacement (convention-free); grad(psi) direction as above
+            import harness.c02 as c02
+            with sym_numpy(env, mla_mod, mesh_mod):
+                beta = c02.real_beta_at_point(env, (tab.pR / g, tab.pZ / g), g, bpsign)
+            tanb = beta["tanb"]
         else:
             tanb = 0
         with sym_numpy(env, mla_mod, mesh_mod):
@@ -91,9 +96,14 @@ def _mk(orthogonal, bpsign, free_I):
         if orthogonal:
             env.claim_eq("curl^y=curl.grad(y)", got["curl_bOverB_y"], A)
         else:
-            # grad y is the dual of e_y in the poloidal plane: (Bp_hat - tanBeta*gradpsi_hat)*bpsign/hy  (see C02 displacement obligation)
-            #   = (BR + t*BZ, BZ - t*BR)/(hy*Bp)
-            env.claim_eq("curl^y=curl.grad(y)", got["curl_bOverB_y"], A + tanb * C)
+            # grad y is the dual basis vector of the actual grid: e_x = delta/dx (dx = grad(psi).delta), e_y = hy*bpsign*Bp_hat
+            dlt, bh = beta["delta"], beta["bhat"]
+            dxx = tab.pR * dlt[0] + tab.pZ * dlt[1]
+            ex = (dlt[0] / dxx, dlt[1] / dxx)
+            ey = (hy * bpsign * bh[0], hy * bpsign * bh[1])
+            det2 = ex[0] * ey[1] - ex[1] * ey[0]
+            grady = (-ex[1] / det2, ex[0] / det2)
+            env.claim_eq("curl^y=curl.grad(y)", got["curl_bOverB_y"], curl_R * grady[0] + curl_Z * grady[1])
             env.claim_eq("curl^y_up_to_the_sign_of_tanBeta", (got["curl_bOverB_y"] - A) ** 2, (tanb * C) ** 2)
             gy2 = ((BRv - BZv * tanb) ** 2 + (BZv + BRv * tanb) ** 2) / (Bp * hy) ** 2
             cos2 = 1 / (1 + tanb * tanb)
